@@ -2,7 +2,7 @@
 // (DESIGN.md §3.3).  Nothing here is verified.
 #[derive(PartialEq, Eq, PartialOrd, Ord, Hash)]
 pub struct Url { _p: u64 }
-pub struct UrlParseError { _p: u64 }
+#[derive(Debug)] pub struct UrlParseError { _p: u64 }
 impl Url {
   pub fn scheme(&self) -> &str { unimplemented!() }
   pub fn parse(_s: &str) -> Result<Url, UrlParseError> { unimplemented!() }
